@@ -56,23 +56,41 @@ func c11Alphabet() map[string]func(i int) c11Elem {
 		return &WMsg{Start: "SIP/2.0 200 OK", Hdrs: []WHdr{{"v", fmt.Sprintf("SIP/2.0/TCP h;branch=z9hG4bK%d", i)}, {"x", ""}, {"l", "0"}}}
 	}
 	return map[string]func(i int) c11Elem{
-		"nobody":    func(i int) c11Elem { return c11Elem{Name: "nobody", Msg: c11Base(i, nil, nil)} },
-		"small":     func(i int) c11Elem { return c11Elem{Name: "small", Msg: c11Base(i, nil, []byte("hello"))} },
-		"tiny":      func(i int) c11Elem { return c11Elem{Name: "tiny", Msg: tiny(i)} },
-		"siplike":   func(i int) c11Elem { return c11Elem{Name: "siplike", Msg: c11Base(i, nil, []byte("INVITE sip:x@y SIP/2.0\r\nVia: SIP/2.0/TCP z\r\nContent-Length: 2\r\n\r\nab"))} },
-		"crlfbody":  func(i int) c11Elem { return c11Elem{Name: "crlfbody", Msg: c11Base(i, nil, []byte("\r\n\r\nSIP/2.0 200 OK\r\n\r\n"))} },
+		"nobody": func(i int) c11Elem { return c11Elem{Name: "nobody", Msg: c11Base(i, nil, nil)} },
+		"small":  func(i int) c11Elem { return c11Elem{Name: "small", Msg: c11Base(i, nil, []byte("hello"))} },
+		"tiny":   func(i int) c11Elem { return c11Elem{Name: "tiny", Msg: tiny(i)} },
+		"siplike": func(i int) c11Elem {
+			return c11Elem{Name: "siplike", Msg: c11Base(i, nil, []byte("INVITE sip:x@y SIP/2.0\r\nVia: SIP/2.0/TCP z\r\nContent-Length: 2\r\n\r\nab"))}
+		},
+		"crlfbody": func(i int) c11Elem {
+			return c11Elem{Name: "crlfbody", Msg: c11Base(i, nil, []byte("\r\n\r\nSIP/2.0 200 OK\r\n\r\n"))}
+		},
 		"lf":        func(i int) c11Elem { return c11Elem{Name: "lf", Msg: c11Base(i, nil, []byte("x\ny\n")), LF: true} },
 		"keepalive": func(i int) c11Elem { return c11Elem{Name: "keepalive", Msg: c11Base(i, nil, []byte("k")), Pre: 2} },
 		"ka3-tiny":  func(i int) c11Elem { return c11Elem{Name: "ka3-tiny", Msg: tiny(i), Pre: 3} },
-		"line4094":  func(i int) c11Elem { return c11Elem{Name: "line4094", Msg: c11Base(i, []WHdr{c11Line(4094)}, []byte("b"))} },
-		"line4095":  func(i int) c11Elem { return c11Elem{Name: "line4095", Msg: c11Base(i, []WHdr{c11Line(4095)}, []byte("b"))} },
-		"line4096":  func(i int) c11Elem { return c11Elem{Name: "line4096", Msg: c11Base(i, []WHdr{c11Line(4096)}, []byte("b"))} },
-		"line4097":  func(i int) c11Elem { return c11Elem{Name: "line4097", Msg: c11Base(i, []WHdr{c11Line(4097)}, []byte("b"))} },
-		"line4098":  func(i int) c11Elem { return c11Elem{Name: "line4098", Msg: c11Base(i, []WHdr{c11Line(4098)}, []byte("b"))} },
-		"line8192":  func(i int) c11Elem { return c11Elem{Name: "line8192", Msg: c11Base(i, []WHdr{c11Line(8190), c11Line(8192), c11Line(8194)}, nil)} },
-		"line20k":   func(i int) c11Elem { return c11Elem{Name: "line20k", Msg: c11Base(i, []WHdr{c11Line(20 * 1024)}, []byte("after long line"))} },
-		"body60k":   func(i int) c11Elem { return c11Elem{Name: "body60k", Msg: c11Base(i, nil, big)} },
-		"body4096":  func(i int) c11Elem { return c11Elem{Name: "body4096", Msg: c11Base(i, nil, big[:4096])} },
+		"line4094": func(i int) c11Elem {
+			return c11Elem{Name: "line4094", Msg: c11Base(i, []WHdr{c11Line(4094)}, []byte("b"))}
+		},
+		"line4095": func(i int) c11Elem {
+			return c11Elem{Name: "line4095", Msg: c11Base(i, []WHdr{c11Line(4095)}, []byte("b"))}
+		},
+		"line4096": func(i int) c11Elem {
+			return c11Elem{Name: "line4096", Msg: c11Base(i, []WHdr{c11Line(4096)}, []byte("b"))}
+		},
+		"line4097": func(i int) c11Elem {
+			return c11Elem{Name: "line4097", Msg: c11Base(i, []WHdr{c11Line(4097)}, []byte("b"))}
+		},
+		"line4098": func(i int) c11Elem {
+			return c11Elem{Name: "line4098", Msg: c11Base(i, []WHdr{c11Line(4098)}, []byte("b"))}
+		},
+		"line8192": func(i int) c11Elem {
+			return c11Elem{Name: "line8192", Msg: c11Base(i, []WHdr{c11Line(8190), c11Line(8192), c11Line(8194)}, nil)}
+		},
+		"line20k": func(i int) c11Elem {
+			return c11Elem{Name: "line20k", Msg: c11Base(i, []WHdr{c11Line(20 * 1024)}, []byte("after long line"))}
+		},
+		"body60k":  func(i int) c11Elem { return c11Elem{Name: "body60k", Msg: c11Base(i, nil, big)} },
+		"body4096": func(i int) c11Elem { return c11Elem{Name: "body4096", Msg: c11Base(i, nil, big[:4096])} },
 	}
 }
 
@@ -394,7 +412,7 @@ func c11Run(c *Ctx) {
 
 func init() {
 	addCheck(&Check{ID: "C11", Level: "exploration",
-		Rule: "streams of 1-3 (thorough 1-5, plus a fixed 8-message stream) messages over an alphabet of 17 shapes (no body, small body, SIP-like body, body starting with CRLF, LF-only line ends, 0-3 CRLF keep-alives, header lines of 4094..4098 / 8190..8194 / 20480 bytes, bodies of 4096 B and 60 KiB) through the REAL TCPServerTransport.receiveMessage on a simulated connection; segmentations: none, 1-byte segments, ALL single cuts and ALL pairs of cuts for streams up to 700 B (thorough 1500 B), for longer streams all single cuts (or all within +-3 of every line end, body boundary and 4096-multiple) and all pairs of those marks; plus the single cuts end-to-end through a full proxy to a TCP backend; non-trivial = at least one cut",
+		Rule:   "streams of 1-3 (thorough 1-5, plus a fixed 8-message stream) messages over an alphabet of 17 shapes (no body, small body, SIP-like body, body starting with CRLF, LF-only line ends, 0-3 CRLF keep-alives, header lines of 4094..4098 / 8190..8194 / 20480 bytes, bodies of 4096 B and 60 KiB) through the REAL TCPServerTransport.receiveMessage on a simulated connection; segmentations: none, 1-byte segments, ALL single cuts and ALL pairs of cuts for streams up to 700 B (thorough 1500 B), for longer streams all single cuts (or all within +-3 of every line end, body boundary and 4096-multiple) and all pairs of those marks; plus the single cuts end-to-end through a full proxy to a TCP backend; non-trivial = at least one cut",
 		Assume: []string{"a short read equals an additional cut, so cuts subsume short reads; coalescing of queued segments is the no-cut case"},
 		Run:    c11Run,
 		Replay: func(c *Ctx, raw json.RawMessage) string {
